@@ -10,7 +10,7 @@ statements).  Every mutant is applied to a private scratch copy of /repo and dec
   killed-concrete    a VIOLATION line with a concrete failing input (no suffix)
   killed-unlocated   only `... no-failing-input-found` lines (a proof / fragment / correspondence broke)
   survived           exit 0
-Survivors are then triaged with the repository's own test suite (`--triage`): `tests-fail` means the change is
+Survivors are then triaged (after all checks have run) with the repository's own test suite (`--triage`): `tests-fail` means the change is
 outside the brief's scope (it does not pass the existing tests), `tests-pass` means it is either an equivalent
 mutant or a gap of the check - those are listed for the owners of the check.
 
@@ -276,7 +276,11 @@ def run_mutant(w, mut, tier, triage):
     env = dict(os.environ, VERIF_REPO=repo, OMP_NUM_THREADS="1", PYTHONHASHSEED="0", VERIF_SEED="0")
     t0 = time.time()
     res = {k: mut[k] for k in ("pid", "file", "func", "line", "desc", "stmt")}
+    if triage == "only":
+        res.update(mut.get("prev", {}))
     try:
+        if triage == "only":
+            raise StopIteration
         p = subprocess.run([os.path.join(w, "verif", "check"), mut["pid"], "--tier", tier], env=env, capture_output=True, text=True, timeout=2400)
         out = p.stdout
         vio = [ln for ln in out.split("\n") if ln.startswith("VIOLATION")]
@@ -289,14 +293,18 @@ def run_mutant(w, mut, tier, triage):
             res["status"] = "survived"
         res["signatures"] = sigs[:6]
         res["rc"] = p.returncode
+    except StopIteration:
+        pass
     except subprocess.TimeoutExpired:
         res["status"] = "killed-unlocated"
         res["signatures"] = ["timeout"]
     res["check_s"] = round(time.time() - t0, 1)
-    if res["status"] == "survived" and triage:
+    if triage == "only" or (res["status"] == "survived" and triage):
         t0 = time.time()
         try:
-            p = subprocess.run(["/venv/bin/python", "-m", "pytest", "-x", "-q", "-p", "no:cacheprovider", "-n", "4", "--timeout=900", "tests"],
+            # the tests that already fail on the unchanged tree (Atari ROMs, tqdm/rich, tensorboard missing) are deselected
+            desel = [a for t in open(os.path.join(V, "tools", "baseline_failing_tests.txt")).read().split() for a in ("--deselect", t)]
+            p = subprocess.run(["/venv/bin/python", "-m", "pytest", "-x", "-q", "-p", "no:cacheprovider", "-n", "4", "--timeout=900", *desel, "tests"],
                                cwd=repo, env=dict(env, PYTHONPATH=repo), capture_output=True, text=True, timeout=3000)
             tail = p.stdout.strip().split("\n")[-1][:160]
             res["tests"] = "tests-pass" if p.returncode == 0 else "tests-fail"
@@ -347,14 +355,35 @@ def main():
     def job(m):
         w = free.pop()
         try:
-            r = run_mutant(w, m, tier, triage)
+            r = run_mutant(w, m, tier, False)
         finally:
             free.append(w)
         print(f"{r['pid']} {r['status']:17s} {r.get('tests', ''):11s} {r['file'].split('/')[-1]}:{r['line']} {r['func']} [{r['desc']}] {r.get('signatures', [])[:2]}", flush=True)
         return r
 
+    def job_triage(m):
+        w = free.pop()
+        try:
+            r = run_mutant(w, m, tier, "only")
+        finally:
+            free.append(w)
+        print(f"{r['pid']} triage {r.get('tests', ''):11s} {r['file'].split('/')[-1]}:{r['line']} {r['func']} [{r['desc']}] {r.get('tests_first_failure', '')}", flush=True)
+        return r
+
     with ThreadPoolExecutor(max_workers=workers) as ex:
         results = list(ex.map(job, muts))
+    if triage:
+        by_key = {(m["pid"], m["file"], m["func"], m["line"], m["desc"]): m for m in muts}
+        surv = []
+        for r in results:
+            if r["status"] == "survived":
+                m = dict(by_key[(r["pid"], r["file"], r["func"], r["line"], r["desc"])], prev=r)
+                surv.append(m)
+        print(f"--- triage of {len(surv)} survivors with the repository's test suite", flush=True)
+        with ThreadPoolExecutor(max_workers=max(2, workers // 3)) as ex:
+            tri = list(ex.map(job_triage, surv))
+        tri_by = {(r["pid"], r["file"], r["func"], r["line"], r["desc"]): r for r in tri}
+        results = [tri_by.get((r["pid"], r["file"], r["func"], r["line"], r["desc"]), r) for r in results]
     old = {}
     if os.path.exists(out_path):
         old = json.load(open(out_path))
